@@ -5,6 +5,7 @@ package checks
 import (
 	"fmt"
 	"reflect"
+	"runtime"
 	"runtime/debug"
 	"strings"
 	"time"
@@ -158,6 +159,7 @@ func c18Explore(shard, nshards int, tier string) c18Result {
 	if tier == "thorough" {
 		deadline = time.Now().Add(25 * time.Minute)
 	}
+	debug.SetMemoryLimit(3 << 30)
 	vals := c18Values()
 	// self-check of the observation: two snapshots with nothing in between must be identical
 	if shard == 0 {
@@ -265,7 +267,16 @@ func c18Explore(shard, nshards int, tier string) c18Result {
 			reported := false
 			gcWas := debug.SetGCPercent(-1)
 			prime()
+			sinceGC := 0
 			st, capped, diverged := choose.ExploreDiv(bound, 1, func() bool { return time.Now().After(deadline) }, func(c *choose.Ctx) {
+				// the collector is held off between the history prefix and the schedules that depend on it; memory is
+				// bounded by collecting by hand every few thousand schedules and re-establishing the prefix (and by the
+				// soft memory limit set at worker start, which lets the runtime collect earlier if it must)
+				if sinceGC++; sinceGC >= 4000 {
+					sinceGC = 0
+					runtime.GC()
+					prime()
+				}
 				s := runSchedule(c, sel, limits)
 				res.States += s.points
 				if reported {
